@@ -149,11 +149,12 @@ Theorem c07_consume_returns : forall cf store log ins,
 Proof. exact consume_returns_holds. Qed.
 Print Assumptions c07_consume_returns.
 
-(* Errors of a claim's partition consumer are drained while the claim lives and handed to handleError, which never blocks:
+(* Errors of a claim's partition consumer are drained while the claim lives, errors of the offset managers from the start of
+   the session until the final flush is over (hook acceptor); both are handed to handleError, which never blocks:
    reporting one changes nothing in the member, and no run depends on whether errors are delivered to / read by the
-   application (so neither do the session-end causes, c07_consume_returns, or the hook order). *)
+   application (so neither do the session-end causes, the final commit attempts, c07_consume_returns, or the hook order). *)
 Theorem c07_errors_never_block : forall cf,
-  (forall w p d, fst (step cf w (IClaimError p d)) = w) /\
+  (forall w p d, fst (step cf w (IClaimError p d)) = w /\ fst (step cf w (IPomError p d)) = w) /\
   (forall ins w, final cf w (map undeliver ins) = final cf w ins).
 Proof. exact errors_never_block. Qed.
 Print Assumptions c07_errors_never_block.
